@@ -217,6 +217,9 @@ def gen_opts(rng: common.Rng, algo: str, space, n: int) -> dict[str, Any]:
     """Random algorithm configuration (kept JSON-able)."""
     d = space_dim(space)
     o: dict[str, Any] = {}
+    if algo == "PoissonDisk" and d >= 5:
+        # SciPy allocates (sqrt(d)/radius)^d cells: the default radius 0.05 needs > 1 GB in dimension 5
+        return {"radius": rng.pick([0.2, 0.3])}
     if rng.chance(0.45) and algo not in ("OATDOE", "CustomDOE"):
         return o
     if algo == "LHS":
@@ -402,6 +405,8 @@ def valid_request(space, req) -> bool:
             return False
         if crit in ("correlation", "corr") and (n < 3 or d < 2):
             return False
+    if algo == "PoissonDisk" and d >= 5 and float(opts.get("radius", 0.05)) < 0.2:
+        return False  # resource bound of the check (SciPy's cell grid), not of the property
     if algo == "CustomDOE" and any(len(row) != d for row in opts.get("samples", [[]])):
         return False
     if algo == "OATDOE" and len(opts.get("initial_point", [])) != d:
@@ -824,6 +829,8 @@ def shrink_request(space, req, key: str):
     """Smaller failing input: fewer variables, smaller n, default options (re-validated by the oracle)."""
 
     def fails(sp, rq) -> bool:
+        if not valid_request(sp, rq):
+            return False
         try:
             return any(k == key for k, _ in oracle(sp, rq, run_impl(sp, rq, parallel=bool(rq.get("parallel")))))
         except Exception:  # noqa: BLE001
@@ -928,6 +935,8 @@ def check_batch(res: Result, batch: list[tuple[dict, dict, str]], in_scope: bool
             continue
         found = False
         for s2, r2 in neighbours(space, req):
+            if not valid_request(s2, r2):
+                continue
             try:
                 o2 = run_impl(s2, r2, parallel=bool(r2.get("parallel")))
                 b2 = oracle(s2, r2, o2)
